@@ -324,3 +324,9 @@ Theorem C08_gen_bufferreader_skip_err : forall D F CH, wf D -> forall c st t st'
   RInv D F CH c st -> (depth0 < rfuel)%nat -> (r_fuel st < fuel)%nat -> t < 256 ->
   br_skip st t = (st', Err e) -> e <> e_fuel -> g_br_skip rfuel fuel st t = Ok (st', Some e).
 Proof. exact g_br_skip_err. Qed.
+
+(* BytesSkipDecoder.Next starts from offset 0 of what is left, whatever an earlier Next that failed
+   part-way left behind (repair of /repo: p.n = 0 at entry) *)
+Theorem C08_bytes_decoder_forgets_stale_offset : forall b k t,
+  bs_next {| bs_b := b; bs_n := k |} t = bs_next (bs_new b) t.
+Proof. exact bs_next_forgets_offset. Qed.
